@@ -134,8 +134,23 @@ def check(case, ctx: Ctx):
             with open(os.path.join(hooks_dir, "hook_script.json"), "w") as f:
                 json.dump({"i": 0, "outcomes": case["hook"], "calls": []}, f)
         ref = "stage0.Main"
+        def late_restart(d):
+            # "once a restart is refused the component receives its final state": a restart request that arrives after
+            # the final state (e.g. a late duplicate notification) must not start the task again
+            from ..rt.kernel import KERNEL
+            comp = d.components[ref]
+            before = d.backend.launches[ref]
+            if comp.state not in ("finished", "failed", "component_shutdown"):
+                return None
+            try:
+                code = comp.restart(reason="ResourceExhausted", code=1)
+            except Exception as e:
+                code = "raised:" + type(e).__name__
+            KERNEL.drain(max_items=4000, horizon_s=15.0)
+            return {"code": code, "new_launches": d.backend.launches[ref] - before, "state": comp.state}
+
         drv = rtdriver.Driver(exp, PatternChooser(case["sched"]), {ref: list(case["reasons"])},
-                              max_decisions=40000, max_items=400000)
+                              max_decisions=40000, max_items=400000, post_run=late_restart)
         res = drv.run()
         hook_calls = []
         if case["hookPresent"]:
@@ -145,6 +160,12 @@ def check(case, ctx: Ctx):
         shutil.rmtree(loc, ignore_errors=True)
 
     launches = [r for (c, n, r) in res.launch_log if c == ref]
+    late = getattr(res, "post_run", None)
+    if late and late["new_launches"]:
+        raise Violation("restart-after-final-state", "a restart requested after the component was final started the "
+                        "task again: %s; options %s" % (late, {k: case[k] for k in ("maxRestarts", "restartHookOn")}))
+    if late:
+        launches = launches[:len(launches) - late["new_launches"]]
     restart_on = case["restartHookOn"] if case["restartHookOn"] is not None else ["ResourceExhausted"]
     limit = limit_of(case)
     desc = "options(max=%r hookFile=%r present=%s on=%s) launches=%s hook=%s" % (
